@@ -1176,7 +1176,7 @@ def exec_set(case, ns0):
         "(doc %s)" % ("none" if data is None else "(some %s)" % I(note(data)))
     facts["orig"] = None if fail is not None else plain(data)
     gather_sx, built_sx = "(ok ())", "(raise (crash s))"
-    saveto_t, change_t, dump_t, jview_t = {}, {}, {}, {}
+    saveto_t, change_t, dump_t, jview_t, yview_t = {}, {}, {}, {}, {}
     # the replacement value, obtained as main() obtains it (secrets.choice is an oracle: both this
     # computation and the real run below use the same deterministic stand-in)
     new_value, has_new, value_ok = None, False, True
@@ -1307,10 +1307,17 @@ def exec_set(case, ns0):
                 change_t[d1] = "(crash %s)" % ufam(e)
             cverb_t[d1] = I(len(log.verb) - verb_before)
         if data is not None:
-            # how ruamel's dump of the state that would be written ends (oracle)
+            # how ruamel's dump of the state that would be written ends, and what its text loads
+            # back to (oracles)
+            yview_t[note(data)] = I(note(data))
             try:
-                E["Parsers"].get_yaml_editor().dump(data, io.StringIO())
+                buf = io.StringIO()
+                E["Parsers"].get_yaml_editor().dump(data, buf)
                 dump_t[note(data)] = "none"
+                back = parse_dump(buf.getvalue())
+                if back is not None and not back[0] and len(back[1]) == 1:
+                    yview_t[note(data)] = I(reg.id_of_plain(back[1][0]))
+                    facts["yaml_reloads_to"] = back[1][0]
             except (Exception, RecursionError) as e:  # noqa
                 dump_t[note(data)] = "(some %s)" % hexs(type(e).__name__)
                 facts["dump_err"] = type(e).__name__
@@ -1320,10 +1327,10 @@ def exec_set(case, ns0):
             except (Exception, RecursionError):  # noqa
                 jview_t[note(data)] = I(note(data))
     tbl = lambda t: LST("(%s %s)" % (I(k), v) for k, v in sorted(t.items()))  # noqa
-    req = "(cli-set %s %s %s %s %s %s %s %s %s %s %s %s)" % (
+    req = "(cli-set %s %s %s %s %s %s %s %s %s %s %s %s %s)" % (
         a, B(tty), valfile_err, load_sx, gather_sx, built_sx,
         tbl(saveto_t), tbl(change_t), LST("(%s %s)" % (I(i), B(v)) for i, v in sorted(flow.items())), tbl(dump_t),
-        tbl(jview_t), tbl(cverb_t))
+        tbl(jview_t), tbl(yview_t), tbl(cverb_t))
     target = "" if stream else file_eff
     tb, tm = age(target) if target else (None, None)
     bakb = open(target + ".bak", "rb").read() if target and os.path.exists(target + ".bak") else None
@@ -1801,8 +1808,24 @@ def undescribe(d):
     return d
 
 
-# no known findings: the three former ones (differ vs data equality, matrix merges sharing nodes,
-# `--format float` writing an unloadable file) were repaired in the library
-FINDING_PREDS = {}
+def _is_block_scalar_indent_finding(case, obs):
+    """ruamel's emitter writes a wrong indentation indicator for a literal / folded block scalar whose
+    first line starts with a space (`|4-` + 4 columns for "  x" at indent 2): the text loads back
+    without the leading spaces.  Holds of a yaml-set run whose post-state, dumped and reloaded by the
+    harness itself, is not the post-state, and which wrote such a block scalar."""
+    if case["tool"] != "set":
+        return False
+    req, o, facts = _execute(case)
+    back, final = facts.get("yaml_reloads_to"), facts.get("final")
+    if back is None or final is None or back == final:
+        return False
+    ns = facts["ns"]
+    val = facts.get("new_value")
+    return ns.format in ("literal", "folded") and isinstance(val, str) and val[:1] == " "
+
+
+# the three former findings (differ vs data equality, matrix merges sharing nodes, `--format float`
+# writing an unloadable file) were repaired in the library
+FINDING_PREDS = {"ruamel_block_scalar_indent": _is_block_scalar_indent_finding}
 
 from c16_gen import chunks, corpus_chunks  # noqa: E402,F401
